@@ -136,31 +136,34 @@ def logViolation (r : Radio) (s : String) : Radio := { r with violations := r.vi
 /-- write a 5-byte address register: a shorter write overwrites the low bytes only -/
 def overlay (old new : Bytes) : Bytes := (new.take 5) ++ old.drop (min new.length 5)
 
-/-- write one byte-register with its write mask; reserved bits are dropped and logged -/
-def maskWrite (r : Radio) (name : String) (mask v : Nat) : Radio × Nat :=
-  if v &&& mask = v then (r, v) else (r.logViolation s!"{name}:reserved:{v}", v &&& mask)
+/-- log entry for a write that sets a bit outside the register's write mask -/
+def reservedLog (name : String) (mask v : Nat) : List String :=
+  if v &&& mask = v then [] else [s!"{name}:reserved:{v}"]
 
-/-- W_REGISTER `reg` with data bytes `d` (non-empty) -/
+/-- log entry for a value outside the register's documented range -/
+def rangeLog (name : String) (bad : Bool) (v : Nat) : List String :=
+  if bad then [s!"{name}:range:{v}"] else []
+
+/-- W_REGISTER `reg` with data bytes `d` (non-empty): reserved bits are dropped and logged -/
 def writeReg (r : Radio) (reg : Nat) (d : Bytes) : Radio :=
   let v := d.headD 0
   match reg with
   | 0x00 =>
-    let (r, v) := r.maskWrite "CONFIG" 0x7F v
     -- the role (PRIM_RX) must only be changed with CE low; logged apart ("CE:" prefix)
-    let r := if r.ce ∧ (v &&& 1) ≠ (r.config &&& 1) then r.logViolation "CE:role-change-with-CE-high" else r
-    { r with config := v }
-  | 0x01 => let (r, v) := r.maskWrite "EN_AA" 0x3F v; { r with enAA := v }
-  | 0x02 => let (r, v) := r.maskWrite "EN_RXADDR" 0x3F v; { r with enRxAddr := v }
+    { r with config := v &&& 0x7F,
+             violations := r.violations ++ reservedLog "CONFIG" 0x7F v ++
+               (if r.ce ∧ (v &&& 0x7F &&& 1) ≠ (r.config &&& 1) then ["CE:role-change-with-CE-high"] else []) }
+  | 0x01 => { r with enAA := v &&& 0x3F, violations := r.violations ++ reservedLog "EN_AA" 0x3F v }
+  | 0x02 => { r with enRxAddr := v &&& 0x3F, violations := r.violations ++ reservedLog "EN_RXADDR" 0x3F v }
   | 0x03 =>
-    let (r, v) := r.maskWrite "SETUP_AW" 0x03 v
-    let r := if v = 0 then r.logViolation "SETUP_AW:illegal:0" else r
-    { r with setupAw := v }
+    { r with setupAw := v &&& 0x03,
+             violations := r.violations ++ reservedLog "SETUP_AW" 0x03 v ++
+               (if v &&& 0x03 = 0 then ["SETUP_AW:illegal:0"] else []) }
   | 0x04 => { r with setupRetr := v &&& 0xFF }
   | 0x05 =>
-    let (r, v) := r.maskWrite "RF_CH" 0x7F v
-    let r := if v > 125 then r.logViolation s!"RF_CH:range:{v}" else r
-    { r with rfCh := v, plosCnt := 0 }
-  | 0x06 => let (r, v) := r.maskWrite "RF_SETUP" 0xBF v; { r with rfSetup := v }
+    { r with rfCh := v &&& 0x7F, plosCnt := 0,
+             violations := r.violations ++ reservedLog "RF_CH" 0x7F v ++ rangeLog "RF_CH" (decide (v &&& 0x7F > 125)) (v &&& 0x7F) }
+  | 0x06 => { r with rfSetup := v &&& 0xBF, violations := r.violations ++ reservedLog "RF_SETUP" 0xBF v }
   | 0x07 =>
     -- write-one-to-clear on bits 4..6; other bits are read-only and ignored
     { r with flags := r.flags &&& (0x70 ^^^ (v &&& 0x70)) }
@@ -172,18 +175,16 @@ def writeReg (r : Radio) (reg : Nat) (d : Bytes) : Radio :=
   | 0x0F => { r with rxAddrN := r.rxAddrN.set 3 v }
   | 0x10 => { r with txAddr := overlay r.txAddr d }
   | 0x1C =>
-    if r.featureVisible then
-      let (r, v) := r.maskWrite "DYNPD" 0x3F v; { r with dynpd := v }
-    else r
+    { r with dynpd := if r.featureVisible then v &&& 0x3F else r.dynpd,
+             violations := r.violations ++ (if r.featureVisible then reservedLog "DYNPD" 0x3F v else []) }
   | 0x1D =>
-    if r.featureVisible then
-      let (r, v) := r.maskWrite "FEATURE" 0x07 v; { r with feature := v }
-    else r
+    { r with feature := if r.featureVisible then v &&& 0x07 else r.feature,
+             violations := r.violations ++ (if r.featureVisible then reservedLog "FEATURE" 0x07 v else []) }
   | _ =>
     if 0x11 ≤ reg ∧ reg ≤ 0x16 then
-      let (r, v) := r.maskWrite s!"RX_PW_P{reg - 0x11}" 0x3F v
-      let r := if v > 32 then r.logViolation s!"RX_PW_P{reg - 0x11}:range:{v}" else r
-      { r with rxPw := r.rxPw.set (reg - 0x11) v }
+      { r with rxPw := r.rxPw.set (reg - 0x11) (v &&& 0x3F),
+               violations := r.violations ++ reservedLog s!"RX_PW_P{reg - 0x11}" 0x3F v ++
+                 rangeLog s!"RX_PW_P{reg - 0x11}" (decide (v &&& 0x3F > 32)) (v &&& 0x3F) }
     else r  -- read-only (0x08, 0x09, 0x17) or unmapped: ignored
 
 /-- R_REGISTER: the bytes of register `reg` -/
@@ -218,28 +219,50 @@ def writePayload (r : Radio) (kind : TxKind) (d : Bytes) : Radio :=
   if r.txFull ∨ d.isEmpty then r
   else { r with txFifo := r.txFifo ++ [{ kind := kind, data := d.take 32 }] }
 
+/-- the SPI command set -/
+inductive Cmd where
+  | rRegister (reg : Nat) | wRegister (reg : Nat) | activate | rRxPlWid | rRxPayload
+  | wTxPayload | wTxPayloadNoAck | wAckPayload (pipe : Nat) | flushTx | flushRx
+  | nop   -- NOP, REUSE_TX_PL and unknown command bytes
+  deriving DecidableEq, Repr
+
+def decodeCmd (c : Nat) : Cmd :=
+  if c < 0x20 then .rRegister c
+  else if c < 0x40 then .wRegister (c - 0x20)
+  else if c = 0x50 then .activate
+  else if c = 0x60 then .rRxPlWid
+  else if c = 0x61 then .rRxPayload
+  else if c = 0xA0 then .wTxPayload
+  else if c = 0xB0 then .wTxPayloadNoAck
+  else if 0xA8 ≤ c ∧ c ≤ 0xAD then .wAckPayload (c - 0xA8)
+  else if c = 0xE1 then .flushTx
+  else if c = 0xE2 then .flushRx
+  else .nop
+
+/-- effect of a command with data bytes `d` on the chip, and the data bytes clocked out -/
+def runCmd (r : Radio) (c : Cmd) (d : Bytes) : Radio × Bytes :=
+  let n := d.length
+  match c with
+  | .rRegister reg => (r, clockOut (r.readReg reg) n)
+  | .wRegister reg => (if n = 0 then r else r.writeReg reg d, zeros n)
+  | .activate => ({ r with activated := if !r.plus ∧ d.headD 0 = 0x73 then !r.activated else r.activated }, zeros n)
+  | .rRxPlWid => (r, clockOut [match r.rxFifo with | [] => 0 | e :: _ => e.data.length] n)
+  | .rRxPayload => r.readPayload n
+  | .wTxPayload => (r.writePayload .payload d, zeros n)
+  | .wTxPayloadNoAck => (r.writePayload .payloadNoAck d, zeros n)
+  | .wAckPayload p => (r.writePayload (.ackFor p) d, zeros n)
+  | .flushTx => ({ r with txFifo := [] }, zeros n)
+  | .flushRx => ({ r with rxFifo := [] }, zeros n)
+  | .nop => (r, zeros n)
+
 /-- one SPI transaction (CSN low … CSN high): MOSI bytes in, MISO bytes out (same length).
     The first MISO byte is STATUS **as it was before the command took effect**. -/
 def xfer (r : Radio) (out : Bytes) : Radio × Bytes :=
   match out with
   | [] => (r, [])
   | cmd :: d =>
-    let st := r.status
-    let n := d.length
-    if cmd < 0x20 then (r, st :: clockOut (r.readReg cmd) n)                     -- R_REGISTER
-    else if cmd < 0x40 then
-      (if n = 0 then r else r.writeReg (cmd - 0x20) d, st :: zeros n)            -- W_REGISTER
-    else if cmd = 0x50 then                                                      -- ACTIVATE
-      (if !r.plus ∧ d.headD 0 = 0x73 then { r with activated := !r.activated } else r, st :: zeros n)
-    else if cmd = 0x60 then                                                      -- R_RX_PL_WID
-      (r, st :: clockOut [match r.rxFifo with | [] => 0 | e :: _ => e.data.length] n)
-    else if cmd = 0x61 then let (r', o) := r.readPayload n; (r', st :: o)        -- R_RX_PAYLOAD
-    else if cmd = 0xA0 then (r.writePayload .payload d, st :: zeros n)
-    else if cmd = 0xB0 then (r.writePayload .payloadNoAck d, st :: zeros n)
-    else if 0xA8 ≤ cmd ∧ cmd ≤ 0xAD then (r.writePayload (.ackFor (cmd - 0xA8)) d, st :: zeros n)
-    else if cmd = 0xE1 then ({ r with txFifo := [] }, st :: zeros n)             -- FLUSH_TX
-    else if cmd = 0xE2 then ({ r with rxFifo := [] }, st :: zeros n)             -- FLUSH_RX
-    else (r, st :: zeros n)                                                      -- NOP, REUSE_TX_PL, unknown
+    let res := r.runCmd (decodeCmd cmd) d
+    (res.1, r.status :: res.2)
 
 end Radio
 end Nrf
